@@ -76,3 +76,27 @@ package reg
 //@   entry-assume !$rewound
 //@   ensures declared-digest-honoured: err == nil && $valid(old(d).Digest) ==> dOut.Digest == old(d).Digest
 //@   ensures declared-size-honoured: err == nil && old(d).Size != 0 ==> dOut.Size == old(d).Size
+
+// ---- C10: cache coherence of the referrers response cache ----
+// Every access to reg.cacheRL (lookup in ReferrerList, store after the API / tag lookup,
+// invalidation in ManifestPut and referrerDelete, refresh in referrerPut) uses the SAME form of
+// key: the subject's repository with the digest and no tag. A lookup under any other key form
+// could return an entry that a later push or delete does not invalidate.
+//@ callsite (*~/internal/cache.Cache[k, v]).Get(key)
+//@   prop C10
+//@   name cacheRL.Get
+//@   in ~/scheme/reg
+//@   where referrer-cache: recv == caller.reg.cacheRL
+//@   requires key-is-digest-only-ref: key.Tag == ""
+//@ callsite (*~/internal/cache.Cache[k, v]).Set(key, val)
+//@   prop C10
+//@   name cacheRL.Set
+//@   in ~/scheme/reg
+//@   where referrer-cache: recv == caller.reg.cacheRL
+//@   requires key-is-digest-only-ref: key.Tag == ""
+//@ callsite (*~/internal/cache.Cache[k, v]).Delete(key)
+//@   prop C10
+//@   name cacheRL.Delete
+//@   in ~/scheme/reg
+//@   where referrer-cache: recv == caller.reg.cacheRL
+//@   requires key-is-digest-only-ref: key.Tag == ""
